@@ -921,6 +921,10 @@ func inFlowLayout(context *layoutContext, box_ bo.Box, index int, child_ Box, ne
 		child.FirstLetterStyle = firstLetterStyle
 	}
 
+	// The layout moves [child] by its collapsed margins: remember where it has
+	// been placed, for the case it has to be laid out a second time.
+	childPositionY := child.PositionY
+
 	newChild_, tmp, maxLines := blockLevelLayout(context, child_.(bo.BlockLevelBoxITF), bottomSpace, skipStack,
 		newContainingBlock, pageIsEmptyWithNoChildren, absoluteBoxes, fixedBoxes, adjoiningMargins, discard, maxLines)
 	resumeAt, nextPage = tmp.resumeAt, tmp.nextPage
@@ -958,6 +962,7 @@ func inFlowLayout(context *layoutContext, box_ bo.Box, index int, child_ Box, ne
 				// layout again with a higher bottomSpace value.
 				removePlaceholders(context, []Box{newChild_}, absoluteBoxes, fixedBoxes)
 				bottomSpace += newChild.PaddingBottom.V() + newChild.BorderBottomWidth.V()
+				child.PositionY = childPositionY
 
 				newChild_, tmp, maxLines = blockLevelLayout(context, child_.(bo.BlockLevelBoxITF), bottomSpace, skipStack,
 					newContainingBlock, pageIsEmptyWithNoChildren, absoluteBoxes, fixedBoxes, adjoiningMargins, discard, maxLines)
